@@ -95,6 +95,22 @@ def gym_layer(ctx):
                 obs, rew, done, info = genv.step(r.randrange(genv.action_space.n))
                 if done:
                     obs = genv.reset()
+        # switching representations on one environment object: the advertised spaces must follow every switch
+        if inner.state_space.can_be_represented:
+            genv = GymEnvironment(OuterEnv(inner, state_representation=rsuite.make_state_representation(r.choice(rsuite.KINDS), inner.state_space),
+                                           observation_representation=rsuite.make_observation_representation(r.choice(rsuite.KINDS), inner.observation_space)))
+            genv.reset()
+            for t in range(6 if ctx.tier == 'quick' else 30):
+                which, kind = r.choice(['state', 'observation']), r.choice(rsuite.KINDS)
+                (genv.set_state_representation if which == 'state' else genv.set_observation_representation)(kind)
+                ctx.count('representation switch', f'{which}->{kind}')
+                ctx.case(('switch', name, t, which, kind, r.random()), True, None)
+                for what, space, val in (('observation', genv.observation_space, genv.observation), ('state', genv.state_space, genv.state)):
+                    if not space.contains(val):
+                        bad = [k for k in val if not space[k].contains(val[k])]
+                        ctx.violation(f'after switching the {which} representation to `{kind}`, the gym {what} space of {name} does not contain the {what}: keys {bad}',
+                                      {'env': name, 'switch': [which, kind], 'step': t})
+                genv.step(r.randrange(genv.action_space.n))
 
 
 if __name__ == '__main__':
